@@ -18,6 +18,7 @@ def hexs(b):
 def struct_to_F(s):
     """refdec structure -> dict(keys, rst, seps, irst, offs) for Reader.tla"""
     keys, rst, seps, offs = [], [], [], []
+    base = s["blocks"][0]["offset"] if s["blocks"] else 0       # offsets relative to the first block (TLC integers are 32 bits wide)
     for b in s["blocks"]:
         ks = [e["key"] for e in b["entries"]]
         off2idx = {e["off"]: i + 1 for i, e in enumerate(b["entries"])}
@@ -27,7 +28,7 @@ def struct_to_F(s):
         keys.append(ks)
         rst.append(rs)
         seps.append(b["sep"])
-        offs.append(b["offset"])
+        offs.append(b["offset"] - base)
     ioff2idx = {e["off"]: i + 1 for i, e in enumerate(s["index"]["entries"])}
     irst = [ioff2idx[o] for o in s["index"]["restarts"] if o in ioff2idx] or [1]
     return {"keys": keys, "rst": rst, "seps": seps, "irst": irst, "offs": offs}
